@@ -241,6 +241,13 @@ void ProcessCMD(
     String EnvLine;
     char*  pEnv;
 
+    /* Unprocessed[] holds MAXPARAM + 1 entries (argv[0..MAXPARAM]): refuse what does not fit */
+
+    if (argc > MAXPARAM + 1) {
+        ErrProc(False, argv[MAXPARAM + 1]);
+        argc = MAXPARAM + 1;
+    }
+
     pEnv = getenv(EnvName);
     strmaxcpy(EnvLine, pEnv ? pEnv : "", STRINGSIZE);
 
